@@ -255,7 +255,7 @@ fn nasty() -> impl Strategy<Value = String> {
 }
 
 pub fn run(ctx: &Ctx) {
-    ctx.set_rule("(1) well-formed specifications built by construction from the documented forms tcp://h:p, udp://[h]:p, ws://h:p/path, rtlsdr://[args], :p, each with optional @reference or ?reference (four-letter ICAO code that is not shadowed by an earlier substring match in airports.json, or 'lat,lon'); hosts: DNS names, IPv4, [IPv6]; oracle: Ok, the canonical endpoint, the airport's / the parsed position, serial equal to the serial of the TOML short and table forms and of a second parse, (per run) equal to what a second process prints, and equal to the serial the real jet1090 binary reports in its reception metadata when the endpoint is given as a string, a short table or a long table (three more processes). (2) mutated and random strings (missing host/port, bad scheme, regex metacharacters and over-large repetitions in the reference, non-ASCII, any::<String>()): Source::from_str and Position::from_str never panic. Non-trivial = well-formed spec with a checked reference, or a string longer than 3 that parses; distinct by hash.");
+    ctx.set_rule("(1) well-formed specifications built by construction from the documented forms tcp://h:p, udp://[h]:p, ws://h:p/path, rtlsdr://[args], :p, each with optional @reference or ?reference (four-letter ICAO code that is not shadowed by an earlier substring match in airports.json, or 'lat,lon'); hosts: DNS names, IPv4, [IPv6]; oracle: Ok, the canonical endpoint, the airport's / the parsed position, serial equal to the serial of the TOML short and table forms and of a second parse, (per run) equal to what a second process prints, and equal to the serial the real jet1090 binary reports in its reception metadata when the endpoint is given as a string, a short table or a long table, or in the configuration file without a position and again on the command line with one (four more processes). (2) mutated and random strings (missing host/port, bad scheme, regex metacharacters and over-large repetitions in the reference, non-ASCII, any::<String>()): Source::from_str and Position::from_str never panic. Non-trivial = well-formed spec with a checked reference, or a string longer than 3 that parses; distinct by hash.");
     ctx.assume("url crate normalisation: generated hosts are already in canonical (lower-case, compressed IPv6) form");
     let ap = airports();
     ctx.set_extra("icao_codes_usable_as_oracle", json!(ap.safe_icao.len()));
@@ -339,9 +339,9 @@ pub fn run(ctx: &Ctx) {
     match crate::e2e::Env::from_env() {
         Some(env) => {
             let frame = vcore::enc::df17(5, 0x4840d6, &vcore::enc::me_ident(4, 0, &[1, 2, 3, 4, 48, 49, 50, 32]));
-            for (via_config, long_table, what) in [(false, false, "string form"), (true, false, "short table form"), (true, true, "long table form")] {
+            for (via_config, long_table, cli_dup, what) in [(false, false, false, "string form"), (true, false, false, "short table form"), (true, true, false, "long table form"), (true, false, true, "configuration file without position and again on the command line with @lat,lon")] {
                 ctx.eval();
-                let sc = crate::e2e::Scenario { references: vec![if long_table { Some((0.0, -78.45)) } else { Some((51.4779, 0.0)) }, None], sends: vec![crate::e2e::Send { source: 0, frame: frame.clone(), pause_ms: 2, cut: 0, clock_offset_s: None }, crate::e2e::Send { source: 1, frame: frame.clone(), pause_ms: 0, cut: 0, clock_offset_s: None }], dedup_ms: 40, via_config, long_table, ..Default::default() };
+                let sc = crate::e2e::Scenario { references: vec![if long_table { Some((0.0, -78.45)) } else { Some((51.4779, 0.0)) }, None], sends: vec![crate::e2e::Send { source: 0, frame: frame.clone(), pause_ms: 2, cut: 0, clock_offset_s: None }, crate::e2e::Send { source: 1, frame: frame.clone(), pause_ms: 0, cut: 0, clock_offset_s: None }], dedup_ms: 40, via_config, long_table, cli_dup, ..Default::default() };
                 serial_e2e(ctx, &env, &sc, what);
             }
         }
